@@ -1078,6 +1078,7 @@ STREAMS['annot'] = annot
 
 def probes_c11(tier, seed, ci, nc):
     yield ('rt:class_annotations',)
+    yield ('rt:annotate_discovery',)
 
 
 STREAMS['probes_c11'] = probes_c11
